@@ -54,6 +54,7 @@ var menu = map[string]reqf{
 	"rename-crossdir": func(t uint16, b uint32, s string) refcodec.Msg { return rawpeer.Trenameat(t, b+2, "f", b+4, "f"+s) },
 	"rename-fid":      func(t uint16, b uint32, s string) refcodec.Msg { return rawpeer.Trename(t, b+3, b+4, "r"+s) },
 	"rename-dir":      func(t uint16, b uint32, s string) refcodec.Msg { return rawpeer.Trenameat(t, b+2, "sub", b+4, "sub"+s) },
+	"rename-top":      func(t uint16, b uint32, s string) refcodec.Msg { return rawpeer.Trenameat(t, b+1, "a", b+1, "a"+s) }, // fids TWO levels below the renamed directory
 	"unlink":          func(t uint16, b uint32, s string) refcodec.Msg { return rawpeer.Tunlinkat(t, b+2, "f") },
 	"remove":          func(t uint16, b uint32, s string) refcodec.Msg { return rawpeer.Tremove(t, b+3) },
 	"create":          func(t uint16, b uint32, s string) refcodec.Msg { return rawpeer.Tlcreate(t, b+6, "c"+s, 2) },
@@ -75,7 +76,7 @@ var menu = map[string]reqf{
 	"getattr-below":   func(t uint16, b uint32, s string) refcodec.Msg { return rawpeer.Tgetattr(t, b+12) },
 }
 
-var single = []string{"rename-samedir", "rename-crossdir", "rename-fid", "rename-dir", "unlink", "remove", "create", "mkdir", "walk", "walk2", "clone", "clunk", "clunk-dir", "getattr", "setattr", "read", "write", "attach", "xattrwalk", "lopen", "clunk-below", "getattr-below"}
+var single = []string{"rename-samedir", "rename-crossdir", "rename-fid", "rename-dir", "rename-top", "unlink", "remove", "create", "mkdir", "walk", "walk2", "clone", "clunk", "clunk-dir", "getattr", "setattr", "read", "write", "attach", "xattrwalk", "lopen", "clunk-below", "getattr-below"}
 
 type params struct {
 	Clients  [][]string `json:"clients"` // request names per client, in order
@@ -233,7 +234,7 @@ func generalize(s string) string {
 }
 
 func run(ctx *fw.Ctx, rep *fw.Report) {
-	rep.Rule = "scenario = 2-3 clients (own fids; at most one request outstanding per fid) issuing 1-2 requests each from a 22-request menu (walks, clone, create, mkdir, unlink, remove, same-dir/cross-dir/dir renames, clunk, attach re-bind, xattrwalk, open, read, write, getattr, setattr) on overlapping paths over one shared or one connection each; all Mazurkiewicz traces (DPOR+sleep sets; fallback preemption bound 0,1); oracles: deadlock, every request answered, happens-before race on the instrumented shared state (fid table, tag table, path tree maps, fidRef fields, client maps), path tree consistency and File lifecycle at the end; isolation family: disjoint subtrees, per-client reply sequence == solo run; distinct = distinct reply vectors per scenario"
+	rep.Rule = "scenario = 2-3 clients (own fids; at most one request outstanding per fid) issuing 1-2 requests each from a 23-request menu (walks, clone, create, mkdir, unlink, remove, same-dir/cross-dir/dir renames incl. of a directory two levels above live fids, clunk, attach re-bind, xattrwalk, open, read, write, getattr, setattr) on overlapping paths over one shared or one connection each; all Mazurkiewicz traces (DPOR+sleep sets; fallback preemption bound 0,1); oracles: deadlock, every request answered, happens-before race on the instrumented shared state (fid table, tag table, path tree maps, fidRef fields, client maps), path tree consistency and File lifecycle at the end; isolation family: disjoint subtrees, per-client reply sequence == solo run; distinct = distinct reply vectors per scenario"
 	rep.Assumptions = append(rep.Assumptions, "independence classes of DESIGN §2.2", "<=3 client threads, <=3 connections (the property's 2..64 goroutines / 1..8 connections are beyond exhaustive reach; see DESIGN §6)", "race check covers the instrumented fields/maps listed in cmd/verifgen")
 	var all []params
 	for _, a := range single {
@@ -246,7 +247,7 @@ func run(ctx *fw.Ctx, rep *fw.Report) {
 		}
 	}
 	// Two-step sequences against one structural operation.
-	structural := []string{"rename-samedir", "rename-crossdir", "rename-dir", "unlink", "remove", "rename-fid"}
+	structural := []string{"rename-samedir", "rename-crossdir", "rename-dir", "rename-top", "unlink", "remove", "rename-fid"}
 	seqs := [][]string{{"clunk", "walk"}, {"walk", "clunk"}, {"clone", "clunk"}, {"getattr", "clunk"}, {"create", "clunk-dir"}, {"attach", "getattr"}, {"walk2", "getattr"}, {"xattrwalk", "clunk"}, {"read", "clunk"}, {"unlink", "walk"}, {"rename-samedir", "clunk"}, {"clunk", "clunk-dir"}}
 	for _, a := range structural {
 		for _, sq := range seqs {
